@@ -49,6 +49,11 @@ def h_counter(n, period, punit, unit, cls, tol='sym', f=('since', ('var', 'x'), 
                 dt.offline(s, dt.trace(env, vs, pre + 1, prefix='p'), pre + 1, ts0)
             got = [p[1] for p in dt.offline(s, w, n + 1, ts)]
         else:
+            if pre is not None:
+                # an earlier run on the same object, then reset(): the counter restarts and describes the run fed afterwards
+                ts0 = [env.real('u%d' % i) for i in range(pre + 1)]
+                dt.online(s, dt.trace(env, vs, pre + 1, prefix='p'), pre + 1, ts0)
+                s.reset()
             got = dt.online(s, w, n + 1, ts)
         cnt = s.sampling_violation_counter
         env.observe('counter', cnt)
@@ -93,6 +98,12 @@ def obligations(tier, rng):
         for pre, n in ([(1, 1), (2, 2)] if quick else [(1, 1), (2, 2), (1, 3), (3, 1), (0, 2)]):
             out.append(ob('C13', 'counter', '%s/P=1s/unit=None/second-data-set/pre=%d/n=%d/tol=sym' % (cls, pre, n), n=n, period=1, punit='s', unit=None,
                           cls=cls, pre=pre, max_paths=20000, wall=900))
+    # online: a run, reset(), another run - the counter describes the second run only (also reset() before the very first update: pre=-1)
+    for cls in ('online:update', 'combined:update'):
+        for pre, n in ([(1, 1), (-1, 2), (2, 0)] if quick else [(1, 1), (-1, 2), (2, 0), (0, 2), (2, 2), (1, 3)]):
+            for period, punit, unit in [(1, 's', None), (500, 'ms', 's')]:
+                out.append(ob('C13', 'counter', '%s/P=%d%s/unit=%s/after-reset/pre=%d/n=%d/tol=sym' % (cls, period, punit, unit, pre, n), n=n, period=period, punit=punit,
+                              unit=unit, cls=cls, pre=pre, max_paths=20000, wall=900))
     res_ = out
     from .. import core as _core
     res_ = res_ + _core.make_twins(res_, [('online:update/P=1s/unit=None/n=2/tol=sym', 'since')]) + _core.make_forkmode(res_, [])
